@@ -476,6 +476,15 @@ def sites_in(f: FuncInfo) -> List[Dict[str, object]]:
                     tgt = tgt.elts[1]
                 for j, nme in enumerate([n.id for n in ast.walk(tgt) if isinstance(n, ast.Name)]):
                     mapping[nme] = f"L{depth}_{j}"
+        # `for u, v, data in X.edges(data=True)`: data is X[u][v] (the loop over X.edges() that reads X[u][v] gives the same rows)
+        data_alias: Dict[str, ast.AST] = {}
+        for lp in chain:
+            if isinstance(lp, ast.For) and isinstance(lp.iter, ast.Call) and isinstance(lp.iter.func, ast.Attribute) and lp.iter.func.attr == "edges" and \
+                    any(k_.arg == "data" and isinstance(k_.value, ast.Constant) and k_.value.value is True for k_ in lp.iter.keywords) and \
+                    isinstance(lp.target, ast.Tuple) and len(lp.target.elts) == 3 and all(isinstance(x_, ast.Name) for x_ in lp.target.elts):
+                u_, v_, d_ = lp.target.elts
+                data_alias[d_.id] = ast.Subscript(value=ast.Subscript(value=_copy.deepcopy(lp.iter.func.value), slice=ast.Name(id=u_.id, ctx=ast.Load()), ctx=ast.Load()),
+                                                  slice=ast.Name(id=v_.id, ctx=ast.Load()), ctx=ast.Load())
         ldefs = {k: v for k, v in defs.items() if k not in mapping}
 
         def C(e, extra=None):
@@ -483,6 +492,8 @@ def sites_in(f: FuncInfo) -> List[Dict[str, object]]:
             if extra:
                 m.update(extra)
             x = substitute_locals(e, ldefs)
+            if data_alias:
+                x = substitute_locals(x, data_alias)
             ev_ = _env_at(e)
             if ev_:
                 x = _Fwd(ev_).visit(_copy.deepcopy(x))
